@@ -18,7 +18,8 @@ engines = []
 for p in props:
     pid = p["id"]
     modfile = VERIF / "vf" / "props" / (pid.lower() + ".py")
-    if not modfile.exists():
+    ready = (VERIF / "vf" / "props" / "READY").read_text().split()
+    if not modfile.exists() or pid not in ready:
         not_applicable.append(
             {"property_id": pid, "reason": NOT_BUILT.get(pid, "check not built yet (see DESIGN.md section 3 for the planned generator and oracle)")}
         )
